@@ -384,6 +384,37 @@ fn stress(pr: &PropRun) -> LaneReport {
 
 /// Child process: races real `set_global_recorder` calls and macro emissions with free-running
 /// threads. Prints "CHILD-OK" or "CHILD-FAIL <sig> <msg>".
+/// The recorder installed by the process lane: a logging double that, for two reserved names, behaves like
+/// real exporters sometimes do — it emits a metric of its own from inside a call (re-entering the facade on
+/// the same thread), or it panics inside a call.
+pub struct Reentrant(pub LogRecorder);
+impl Recorder for Reentrant {
+    fn describe_counter(&self, k: metrics::KeyName, u: Option<metrics::Unit>, d: metrics::SharedString) {
+        if k.as_str() == "nest_me" {
+            metrics::counter!("nested_from_inside_the_recorder").increment(1);
+        }
+        if k.as_str() == "panic_me" {
+            std::panic::resume_unwind(Box::new("harness: the recorder panics inside a call"));
+        }
+        self.0.describe_counter(k, u, d)
+    }
+    fn describe_gauge(&self, k: metrics::KeyName, u: Option<metrics::Unit>, d: metrics::SharedString) {
+        self.0.describe_gauge(k, u, d)
+    }
+    fn describe_histogram(&self, k: metrics::KeyName, u: Option<metrics::Unit>, d: metrics::SharedString) {
+        self.0.describe_histogram(k, u, d)
+    }
+    fn register_counter(&self, k: &metrics::Key, m: &metrics::Metadata<'_>) -> metrics::Counter {
+        self.0.register_counter(k, m)
+    }
+    fn register_gauge(&self, k: &metrics::Key, m: &metrics::Metadata<'_>) -> metrics::Gauge {
+        self.0.register_gauge(k, m)
+    }
+    fn register_histogram(&self, k: &metrics::Key, m: &metrics::Metadata<'_>) -> metrics::Histogram {
+        self.0.register_histogram(k, m)
+    }
+}
+
 pub fn child(seed: u64) -> i32 {
     use std::sync::{Arc, Barrier};
     let k = 2 + (seed % 3) as usize;
@@ -405,12 +436,12 @@ pub fn child(seed: u64) -> i32 {
             for _ in 0..(seed % 7) * 50 {
                 std::hint::spin_loop();
             }
-            match metrics::set_global_recorder(rec) {
+            match metrics::set_global_recorder(Reentrant(rec)) {
                 Ok(()) => results.lock().unwrap().push((i, true, i as u32 + 1, 0)),
                 Err(e) => {
                     let back = e.into_inner();
                     let d = dc.load(Ordering::SeqCst);
-                    results.lock().unwrap().push((i, false, back.id, d));
+                    results.lock().unwrap().push((i, false, back.0.id, d));
                     if d != 0 {
                         std::mem::forget(back);
                     } else {
@@ -534,6 +565,40 @@ pub fn child(seed: u64) -> i32 {
         let mine: Vec<_> = l.iter().filter(|e| e.thread == me).collect();
         if !(mine.len() > before && mine[before].rec == w) {
             println!("CHILD-FAIL emission-after-install-not-delivered a thread that had emitted before the installation does not reach the installed recorder afterwards");
+            return 1;
+        }
+    }
+    // emissions that re-enter the facade from inside a call into the installed recorder, from inside a
+    // with_recorder closure, and after a call into the recorder panicked: all on threads without a local
+    // recorder, so all must reach the installed recorder
+    {
+        let log3 = log.clone();
+        let verdict = std::thread::spawn(move || -> Result<(), String> {
+            let me = std::thread::current().id();
+            let names_of = |l: &crate::doubles::Log| -> Vec<String> { l.lock().unwrap().iter().filter(|e| e.thread == me).filter_map(|e| match &e.op { Op::Register { name, .. } | Op::Describe { name, .. } => Some(name.clone()), _ => None }).collect() };
+            metrics::describe_counter!("nest_me", "d");
+            let got = names_of(&log3);
+            if got != ["nested_from_inside_the_recorder", "nest_me"] {
+                return Err(format!("a describe call whose recorder emits a counter of its own from inside the call delivered {:?}, expected the nested registration and then the description", got));
+            }
+            metrics::with_recorder(|_r| metrics::counter!("inside_with_recorder").increment(1));
+            if names_of(&log3).last().map(|s| s.as_str()) != Some("inside_with_recorder") {
+                return Err("an emission made inside a with_recorder closure was not delivered to the installed recorder".to_string());
+            }
+            let r = std::panic::catch_unwind(|| metrics::describe_counter!("panic_me", "d"));
+            if r.is_ok() {
+                return Err("harness: the panicking call did not panic".to_string());
+            }
+            metrics::counter!("after_a_panic_inside_the_recorder").increment(1);
+            if names_of(&log3).last().map(|s| s.as_str()) != Some("after_a_panic_inside_the_recorder") {
+                return Err("after a call into the installed recorder panicked (and the panic was caught), a later emission on the same thread was not delivered".to_string());
+            }
+            Ok(())
+        })
+        .join()
+        .unwrap_or_else(|_| Err("the re-entrancy thread panicked".to_string()));
+        if let Err(e) = verdict {
+            println!("CHILD-FAIL later-emission-not-delivered {}", e);
             return 1;
         }
     }
